@@ -135,7 +135,7 @@ package node
 
 // Path chains are finite: pathLen is the number of segments (trusted axiom: chains are built by prepending only)
 //@ pure pathLen(p *Path) int = p == nil ? 0 : 1 + pathLen(p.Parent)
-//@ axiom pathLenNonNeg: forall p *Path :: pathLen(p) >= 0
+//@ axiom pathLenNonNeg: forall p *Path :: pathLen(p) >= 0 && pathLen(p) <= 1099511627776
 // a list and its entry are two segments with the same meta: they count as one level
 //@ macro pstep(p *Path) int = (meta.IsList(p.Meta) && p.Parent.Meta == p.Meta) ? 0 : 1
 // depth of p below the request base
@@ -243,3 +243,90 @@ package node
 //@   ensures result1 == nil
 //@   ensures r.Target != nil ==> result0
 //@   ensures r.Target == nil ==> result0 == (pmatch(self.selector, r.Base, r.Path) != self.reverse)
+
+// with-defaults=trim: a value equal to the schema default is reported as absent; everything else is untouched.
+// NewValue (the schema-aware conversion front end) is abstracted: deterministic, no heap effects.
+//@ pure newValueOf(t *meta.Type, v interface{}) val.Value
+//@ func NewValue(typ *meta.Type, v interface{}) (val.Value, error)
+//@   trusted
+//@   assigns nothing
+//@   ensures result1 == nil ==> result0 == newValueOf(typ, v)
+//@   ensures result1 != nil ==> result0 == nil
+//@ pure hasDefaultOf(m meta.Leafable) bool
+//@ interface meta.Leafable.HasDefault() bool
+//@   assigns nothing
+//@   ensures result == hasDefaultOf(self)
+//@ pure defaultOf(m meta.Leafable) interface{}
+//@ interface meta.Leafable.DefaultValue() interface{}
+//@   assigns nothing
+//@   ensures result == defaultOf(self)
+//@ pure scalarOrNil(a val.Value) bool = a != nil ==> ordered(a) && notNaN(a) && enumRange(a)
+
+//@ func (self WithDefaults) CheckFieldPostConstraints(r FieldRequest, hnd *ValueHandle) (bool, error)
+//@   mode int
+//@   property C07
+//@   requires hnd != nil && r.Meta != nil && scalarOrNil(hnd.Val) && scalarOrNil(newValueOf(leafType(r.Meta), defaultOf(r.Meta)))
+//@   assigns hnd.Val
+//@   ensures r.Target != nil || self == WithDefaultsAll || !hasDefaultOf(r.Meta) ==> result0 && result1 == nil && hnd.Val == old(hnd.Val)
+//@   ensures result1 == nil ==> result0
+//@   ensures result1 != nil ==> hnd.Val == old(hnd.Val)
+//@   ensures r.Target == nil && self != WithDefaultsAll && hasDefaultOf(r.Meta) && result1 == nil && old(hnd.Val) != nil && newValueOf(leafType(r.Meta), defaultOf(r.Meta)) != nil ==> \
+//@           (hnd.Val == nil) == (sameDyn(newValueOf(leafType(r.Meta), defaultOf(r.Meta)), old(hnd.Val)) && cmpv(newValueOf(leafType(r.Meta), defaultOf(r.Meta)), old(hnd.Val)) == 0)
+//@   ensures hnd.Val != nil ==> hnd.Val == old(hnd.Val)
+
+// ---- C07/C13: path selectors ---------------------------------------------------------------------------
+//@ func (path *Path) Len() (len int)
+//@   mode int
+//@   property C07 C13
+//@   assigns nothing
+//@   loop 1 invariant 0 <= len && len + pathLen(p) == pathLen(path)
+//@   loop 1 decreases pathLen(p)
+//@   ensures len == pathLen(path)
+
+//@ pure identOf(m meta.Definition) string
+//@ interface meta.Definition.Ident() string
+//@   assigns nothing
+//@   ensures result === identOf(self)
+//@ interface meta.Identifiable.Ident() string
+//@   assigns nothing
+//@   ensures result === identOf(self)
+
+// isAncestor(b, p): b is p or one of its parents
+//@ pure isAncestor(b *Path, p *Path) bool = p != nil && (p == b || isAncestor(b, p.Parent))
+
+// two paths are equal (keys ignored) when they have the same schema nodes segment by segment
+//@ macro sameSeg(a *Path, b *Path) bool = (a.Meta == nil && b.Meta == nil) || (a.Meta != nil && b.Meta != nil && identOf(a.Meta) == identOf(b.Meta))
+//@ pure sameMetaChain(a *Path, b *Path) bool = (a == nil && b == nil) || (a != nil && b != nil && sameSeg(a, b) && sameMetaChain(a.Parent, b.Parent))
+
+// (by induction on the chain; stated as an axiom because SMT solvers do not do induction)
+//@ axiom sameChainSameLen: forall a *Path, b *Path :: sameMetaChain(a, b) ==> pathLen(a) == pathLen(b)
+
+//@ func (a *Path) equalSegment(b *Path, compareKey bool) bool
+//@   mode int
+//@   property C07 C08
+//@   requires a != nil && b != nil
+//@   requires compareKey ==> (forall k int :: 0 <= k && k < len(a.Key) ==> scalarOrNil(a.Key[k])) && (forall k int :: 0 <= k && k < len(b.Key) ==> scalarOrNil(b.Key[k]))
+//@   assigns nothing
+//@   loop 1 invariant -1 <= rangeindex && rangeindex < len(a.Key) && len(a.Key) == len(b.Key)
+//@   ensures !compareKey ==> result == sameSeg(a, b)
+//@   ensures result ==> sameSeg(a, b)
+
+//@ func (a *Path) EqualNoKey(b *Path) bool
+//@   mode int
+//@   property C07 C08
+//@   requires a != nil
+//@   assigns nothing
+//@   loop 1 invariant pathLen(sa) == pathLen(sb) && (sa != nil ==> sb != nil)
+//@   loop 1 invariant sameMetaChain(sa, sb) == sameMetaChain(a, b)
+//@   loop 1 decreases pathLen(sa)
+//@   ensures result == sameMetaChain(a, b)
+
+// match never crashes: a selector longer than the part of the candidate below the base is simply no match
+//@ func (e *PathMatchExpression) match(segs segments, base *Path, candidate *Path) bool
+//@   mode int
+//@   property C07 C13
+//@   requires base != nil && candidate != nil && isAncestor(base, candidate)
+//@   requires forall q *Path :: q != nil ==> q.Meta != nil
+//@   assigns nothing
+//@   loop 1 invariant -1 <= i && i < len(segs) && p != nil && j == pathLen(p) - pathLen(base) - 1 && isAncestor(base, p) && i <= j + 0
+//@   loop 1 decreases pathLen(p)
